@@ -85,6 +85,8 @@ class G:
         rng = self.rng
         r = rng.random()
         if depth <= 0 or r < 0.28:
+            if rng.random() < 0.07:
+                return ["nil"]          # a form that leaves nothing behind: the clause's value is None, not the previous form's
             if hv and rng.random() < 0.3:
                 return ["tn", hv]
             if self.allow_vars and rng.random() < 0.15:
@@ -215,6 +217,8 @@ def hy_src(n):
         return f'(T {n[1]} "{n[2]}")'
     if t == "tn":
         return f"(TN {n[1]})"
+    if t == "nil":
+        return "(do)"
     if t == "get":
         return n[1]
     if t == "do":
@@ -338,6 +342,8 @@ class Ref:
             return Exception if n[2] == "Exception" else CLASSES[n[2]]
         if t == "tn":
             return type(self.get(n[1])).__name__
+        if t == "nil":
+            return None
         if t == "get":
             return self.get(n[1])
         if t == "do":
